@@ -91,6 +91,9 @@ def needs_g(text):
 
 
 def run(ctx, model):
+    from . import signatures as _sig
+    _n_sig = _sig.check(ctx, model, "R-SIGNATURE", lambda k: k.startswith('pregex.core.groups:') or k.split('.')[-1] in ('capture', 'group'))
+    ctx.floor("R-SIGNATURE", _n_sig, 1, "public entry points")
     ctx.explanation = __doc__.strip().replace("\n", " ")
     ctx.assumptions += [
         "what counts as Group-typed is decided by __is_group on run-time text (not decided); the receivers enumerated are the "
@@ -127,6 +130,8 @@ def run(ctx, model):
                     f = grp_f
                 ref = ref_group(text, kind, flag)
                 n += _judge(ctx, f, f"group({flag}) [{form}]", label, text, outs, pre, ref)
+    n += B.same_object_twice(ctx, model, "R-GROUP-CASE", [("Group:'(p)'", "Group", "(p)", True), ("Group:'(?P<g>p)'", "Group", "(?P<g>p)", True),
+                                                         ("Other:'(p)q'", "Other", "(p)q", True)])
     ctx.floor("R-GROUP-CASE", n, 250, "capture/group cases")
 
     # ---------------- R-GROUP-REAL (classifier interpreted; shared family of C02 R-COMPOSE)
